@@ -826,6 +826,13 @@ func (o Oracle) Effective(ignored []string) Oracle {
 		if strings.HasPrefix(ig, "elem:") {
 			delete(n.Elems, strings.TrimPrefix(ig, "elem:"))
 		}
+		if strings.HasPrefix(ig, "field:") {
+			k := strings.TrimPrefix(ig, "field:")
+			if fp, ok := n.Fields[k]; ok && fp.O == "null" {
+				fp.O = ""
+				n.Fields[k] = fp
+			}
+		}
 	}
 	return n
 }
